@@ -4,6 +4,7 @@ from vf.common.core import Violation, run_hypothesis
 from vf.props import _session as SE
 
 ID = 'C08'
+USES_SIM = True
 LEVEL = 'exploration'
 RULE = ('simulated sessions (as C09): 1-3 boards (quick) / 1-6 (thorough), each a generated deal, dealer, vulnerability, '
         'id text and optional double-dummy table; four reference clients execute a generated script - a complete legal '
